@@ -13,6 +13,7 @@ import Mfi.Lemmas.ConstL
 import Mfi.Lemmas.TagL
 import Mfi.Lemmas.WorldL
 import Mfi.Lemmas.WorldLedger
+import Mfi.Lemmas.WorldTxL
 
 namespace Mfi.Props.C17
 open Mfi Mfi.Fx Mfi.Bank Mfi.Gen
@@ -439,6 +440,37 @@ theorem world_borrow_below_limit {c : Ctx} {amt : Int} {o : Out} (h : World.borr
   have ht := accrue_totals hb
   have hl := accrue_limits hb
   exact borrowCore_below_limit hcore (by rw [hl.2]; exact hact) (by rw [ht.2]; exact hminted)
+
+/-! ### … in every committed transaction -/
+
+/-- **world_tx_every_borrow_respects_the_caps**: every borrow of a COMMITTED transaction of the world machine — inside or outside
+    a flash-loan bracket, by whoever — ran on a reached state and left its bank with total deposits at least total debt, and, on a
+    bank with an active borrow limit whose debt shares it raised, with total debt strictly below the limit (the flash-loan bracket
+    suspends the HEALTH check, never the caps) -/
+theorem world_tx_every_borrow_respects_the_caps {w w' : WState} {tx : List TOp} (h : w.runTx tx = some w')
+    {i ai bi signer : Nat} {amount : Int} (hi : tx[i]? = some (.ix (.borrow ai bi signer amount))) :
+    ∃ (wi : WState) (a : AcctV) (b : WBank) (o : Out), wi.accts[ai]? = some a ∧ wi.banks[bi]? = some b ∧
+      World.borrow (wi.ctx a b signer b.v.liquidityVault 0) amount = .ok o ∧
+      (∃ ta tl, assetAmount o.books o.books.sa = .ok ta ∧ liabAmount o.books o.books.sl = .ok tl ∧ tl ≤ ta) ∧
+      (b.v.books.borrowLimit ≠ U64MAX → b.v.books.sl < o.books.sl →
+        ∃ tot, liabAmount o.books o.books.sl = .ok tot ∧ tot < ofInt o.books.borrowLimit) := by
+  obtain ⟨wi, a, b, o, ha, hb, ho⟩ := tx_borrow_ran h hi
+  refine ⟨wi, a, b, o, ha, hb, ho, world_borrow_keeps_deposits_above_debt ho, ?_⟩
+  intro hact hminted
+  exact world_borrow_below_limit ho hact hminted
+
+/-- **world_tx_every_deposit_respects_the_limit**: likewise every deposit of a committed transaction that minted deposit shares on
+    a bank with an active deposit limit left total deposits strictly below the limit -/
+theorem world_tx_every_deposit_respects_the_limit {w w' : WState} {tx : List TOp} (h : w.runTx tx = some w')
+    {i ai bi signer : Nat} {amount : Int} {upTo : Bool} (hi : tx[i]? = some (.ix (.deposit ai bi signer amount upTo))) :
+    ∃ (wi : WState) (a : AcctV) (b : WBank) (o : Out), wi.accts[ai]? = some a ∧ wi.banks[bi]? = some b ∧
+      World.deposit (wi.ctx a b signer b.v.liquidityVault 0) amount upTo = .ok o ∧
+      (b.v.books.depositLimit ≠ U64MAX → b.v.books.sa < o.books.sa →
+        ∃ tot lim, assetAmount o.books o.books.sa = .ok tot ∧ depositLimitFx o.books = .ok lim ∧ tot < lim) := by
+  obtain ⟨wi, a, b, o, ha, hb, ho⟩ := tx_deposit_ran h hi
+  refine ⟨wi, a, b, o, ha, hb, ho, ?_⟩
+  intro hact hminted
+  exact world_deposit_below_limit ho hact hminted
 
 end whole_instructions
 
